@@ -27,6 +27,7 @@ type cfgGen struct {
 	arg       rating.RatingsDataArg
 	intent    string // "valid" or the reason it was made invalid on purpose
 	thrSorted []config.SelectionChance
+	pinned    bool // max rating pinned near 2^32 / 2^31
 }
 
 func logUniform(rng *vk.Rand, lo, hi float64) float64 {
@@ -120,6 +121,23 @@ func genConfig(rng *vk.Rand) *cfgGen {
 		max64 = math.MaxUint32
 	}
 	start, maxR := uint32(start64), uint32(max64)
+	// one in four: the maximum rating is pinned at or near the top of the uint32 / int32 range and the
+	// start rating is derived from it (same span), so that increases close to the maximum cross 2^32 / 2^31
+	if rng.Chance(1, 4) {
+		maxR = []uint32{math.MaxUint32, math.MaxUint32 - 1, math.MaxUint32 - 1000, 1 << 31, 1<<31 + 5, 1<<31 - 1, math.MaxUint32 - uint32(rng.Intn(100000))}[rng.Intn(7)]
+		sp := uint64(span)
+		if sp < 1 {
+			sp = 1
+		}
+		if sp > uint64(maxR-minR) {
+			sp = uint64(maxR - minR)
+		}
+		start = maxR - uint32(sp)
+		if rng.Chance(1, 3) { // a high minimum as well: the whole range sits near the top
+			minR = start - uint32(rng.Intn(int(minU32(start-1, 5000))+1))
+		}
+		g.pinned = true
+	}
 
 	// bands: thresholds 0 and max are mandatory
 	nb := 1 + rng.Intn(6)
@@ -210,13 +228,13 @@ func minU32(a, b uint32) uint32 {
 func main() {
 	_ = logger.SetLogLevel("*:NONE")
 	r := vk.Start("C37")
-	r.Rule("one case = one generated ratings config (round time, per-chain consensus size / nodes / hours / importance / decrease factors / penalty in {1, 1.1, 1+tiny, 1..4}; rating span derived so that the increase steps are >= 1, sometimes right at the acceptance border; 1..6 extra chance bands, shuffled order; 1 in 8 invalid on purpose) passed to the real NewRatingsData and NewBlockSigningRater; for accepted configs: both chains x ratings {min, min+1, max-1, max, start, every band threshold and its neighbours, random} x all compute functions, streaks 0..200 plus a few up to 5000. Non-trivial = accepted config; distinct = distinct (bands, penalty class, step-size buckets, span bucket) tuples.")
+	r.Rule("one case = one generated ratings config (round time, per-chain consensus size / nodes / hours / importance / decrease factors / penalty in {1, 1.1, 1+tiny, 1..4}; rating span derived so that the increase steps are >= 1, sometimes right at the acceptance border; 1..6 extra chance bands, shuffled order; 1 in 8 invalid on purpose) passed to the real NewRatingsData and NewBlockSigningRater; for accepted configs: both chains x ratings {min, min+1, max-1, max, start, every band threshold and its neighbours, within 1..3 steps of max and of min for each of the eight configured steps, random}; 1 in 4 configs pins the maximum rating at 2^32-1, 2^32-2, 2^32-1001, 2^31(+5,-1) or just below 2^32 with the start rating derived from it x all compute functions, streaks 0..200 plus a few up to 5000. Non-trivial = accepted config; distinct = distinct (bands, penalty class, step-size buckets, span bucket) tuples.")
 	r.Assume(
 		"ratings passed to the compute functions are within [min,max] (what the peer accounts hold); GetChance is queried for 0..max",
 		"finite float configuration values",
 	)
 	r.MinShapes(40)
-	nCases := r.N(1500, 30000)
+	nCases := r.N(1000, 24000)
 
 	r.Parallel(nCases, func(c *vk.Case) {
 		rng := c.Rng
@@ -290,12 +308,45 @@ func main() {
 				}
 			}
 		}
-		for i := 0; i < 24; i++ {
+		for i := 0; i < 12; i++ {
 			ratings = append(ratings, minR+uint32(rng.U64()%uint64(maxR-minR+1)))
 		}
-		for i := 0; i < 6; i++ { // close to the borders
+		for i := 0; i < 4; i++ { // close to the borders
 			off := uint32(rng.U64() % uint64(minU32(maxR-minR, 100000)+1))
 			ratings = append(ratings, maxR-off, minR+off)
+		}
+		// within a few steps of the maximum and of the minimum, for every configured step size
+		clampAdd := func(x int64) {
+			if x < int64(minR) {
+				x = int64(minR)
+			}
+			if x > int64(maxR) {
+				x = int64(maxR)
+			}
+			ratings = append(ratings, uint32(x))
+		}
+		for _, sh := range []interface {
+			ProposerIncreaseRatingStep() int32
+			ProposerDecreaseRatingStep() int32
+			ValidatorIncreaseRatingStep() int32
+			ValidatorDecreaseRatingStep() int32
+		}{rd.ShardChainRatingsStepHandler(), rd.MetaChainRatingsStepHandler()} {
+			for _, st := range []int32{sh.ProposerIncreaseRatingStep(), sh.ValidatorIncreaseRatingStep(), sh.ProposerDecreaseRatingStep(), sh.ValidatorDecreaseRatingStep()} {
+				step := int64(st)
+				if step < 0 {
+					step = -step
+				}
+				k := int64(1 + rng.Intn(3))
+				clampAdd(int64(maxR) - step + 1)
+				clampAdd(int64(maxR) - step)
+				clampAdd(int64(maxR) - k*step - int64(rng.Intn(3)))
+				clampAdd(int64(maxR) - int64(rng.U64()%uint64(step+1)))
+				clampAdd(int64(minR) + step - 1)
+				clampAdd(int64(minR) + k*step + int64(rng.Intn(3)))
+			}
+		}
+		if g.pinned {
+			r.Count("configs_accepted_with_max_rating_near_2^32_or_2^31", 1)
 		}
 
 		stepSig := ""
